@@ -260,6 +260,14 @@ def requests_C19(docs, emitted, seed, tier):
         for it in types:
             for _ in range(per):
                 v = idlgen.gen_item_value(items, it, r, r.randrange(1, 4))
+                # every cut of the encoding is decoded by model and code: quadratic in the length; the rare multi-kilobyte payloads
+                # of the value generator add nothing here (they are C01 / C02 / C11 material)
+                for _retry in range(6):
+                    if len(idlgen.sexp(v)) <= 3000:
+                        break
+                    v = idlgen.gen_item_value(items, it, r, r.randrange(1, 3))
+                if len(idlgen.sexp(v)) > 3000:
+                    continue
                 for p in ("bin", "cmp"):
                     out.append(f"gl {d['name']} {it['name']} {p} {idlgen.sexp(v)}")
     # retention builds (their decoders keep copies of unknown fields while decoding): types without any list, so that the known
